@@ -12,7 +12,10 @@ META = {
                   "ExecutionInstrumentMap (C04).",
 }
 ASSUMPTIONS = [
-    "an instrument's internal name is unique across exchanges (documented on InstrumentNameInternal; InstrumentStates is keyed by it)",
+    "internal instrument names need NOT be unique (spot and perpetual of one underlying may share one): position = index, index -> entity, "
+    "Dense, Unique, Resolve, OrderFree and Sorted are judged on every collection and insertion order; a look-up by an internal name that "
+    "several instruments of the exchange bear may return any of them; the alignment of InstrumentStates (keyed by the internal name alone, "
+    "as documented) is judged only on collections whose internal names are distinct",
     "an asset has one exchange name per exchange (Asset = internal + exchange name; the builder looks assets up by internal name)",
     "mock execution links are only put on exchanges whose instruments are all spot (MockExchange supports nothing else); the linked subset ranges over all subsets of those",
     "abstract exchanges / names are concretised order-preservingly (ExchangeId by declaration order, names as strings)",
